@@ -35,7 +35,7 @@ Record sroot : Type := {
   sr_simple : simple;
 }.
 
-Definition P_NIL_ITEM : Z := 4.     (* validator.go:84-85 reflect.TypeOf(nil).Kind() on a nil array element *)
+Definition P_NIL_ITEM : Z := 4.     (* retired: a nil array element used to panic at validator.go:84-85 (repaired) *)
 
 Definition C_RANGE := 2001.         (* values.go:451-457 "... value must be of type ..." (plain error) *)
 Definition C_INVALID_TYPE_NAME := 2002.   (* errors.InvalidTypeName: unknown format name *)
@@ -174,9 +174,7 @@ Fixpoint chain (inc : bool) (steps : list (unit -> outcome (option res))) (r : r
 (* validator.go:76-129 (itemsValidator.Validate) and 741-786 (basicSliceValidator.Validate), mutually recursive
    through nested items: structural on the items description *)
 Fixpoint items_validate (root_format : str) (it : simple) (p : path) (index : Z) (d : goval) {struct it} : outcome res :=
-  match d with
-  | VNil => Panic P_NIL_ITEM
-  | _ =>
+  (* a nil element has kind Invalid: only the type and enum steps apply (validator.go:84-87) *)
       let p' := p ++ [SIdx index] in
       let slice_step :=
         (fun _ : unit =>
@@ -206,8 +204,7 @@ Fixpoint items_validate (root_format : str) (it : simple) (p : path) (index : Z)
           (fun _ => Ok (if is_number_kind d then Some (number_validate_tf p' it d) else None));
           slice_step;
           (fun _ => Ok (common_validate_q p' it d)) ]
-        new_res
-  end.
+        new_res.
 
 Definition basic_slice_validate (root_format : str) (q : simple) (p : path) (d : goval) : outcome (option res) :=
   let l := slice_elems d in
